@@ -217,7 +217,7 @@ def check_valid(sym: Symbol, s: str) -> Tuple[bool, Optional[str]]:
         return True, None
 
     if sym.orig_type == FLOAT:
-        if not is_float(s):
+        if not is_float(s) or not sym.value_is_valid(s.strip()):
             err = f"'{s}' is a malformed float value"
             if "," in s and "." not in s:
                 err += "; use a decimal point ('.') not a comma"
@@ -239,6 +239,13 @@ def check_valid(sym: Symbol, s: str) -> Tuple[bool, Optional[str]]:
     try:
         int(s, base)
     except ValueError:
+        return False, f"'{s}' is a malformed {TYPE_TO_STR[sym.orig_type]} value"
+    # Accept exactly what the option will accept once the input is applied (surrounding whitespace is
+    # stripped and a missing 0x prefix is added to hex values then)
+    candidate = s.strip()
+    if sym.orig_type == HEX and not candidate.startswith(("0x", "0X")):
+        candidate = "0x" + candidate
+    if not sym.value_is_valid(candidate):
         return False, f"'{s}' is a malformed {TYPE_TO_STR[sym.orig_type]} value"
 
     for low_sym, high_sym, cond in sym.ranges:
